@@ -234,6 +234,35 @@ class _Draws:
             return v
         return _fill(shape, one)
 
+    def _quantile_cells(self, name, size, params, qf):
+        """Other continuous laws drawn by inversion of one own uniform cell each (no `frac` recorded: a check that needs the documented
+        transform of uniform / laplace cells treats these as unrecognised structure; independence analyses work on any cell)."""
+        self.tape.calls.append((name, self.stream))
+        if any(np.ndim(v) for v in params):
+            self.tape.note_unmodelled("%s(array parameters)" % name)
+            return getattr(self._real(), name)(*params, size)
+        shape = self._bshape(size, *params)
+        menu = (0.5, 0.05, 0.25, 0.75, 0.95)
+
+        def one():
+            k, cell = self.tape.choose(self, name, len(menu), {"params": [float(v) for v in params]})
+            v = float(qf(menu[k], *[float(x) for x in params]))
+            cell["value"] = v
+            return v
+        return _fill(shape, one)
+
+    def exponential(self, scale=1.0, size=None):
+        return self._quantile_cells("exponential", size, (scale,), lambda u, sc: -math.log(1.0 - u) * sc)
+
+    def standard_exponential(self, size=None, *a, **k):
+        return self._quantile_cells("standard_exponential", size, (), lambda u: -math.log(1.0 - u))
+
+    def gumbel(self, loc=0.0, scale=1.0, size=None):
+        return self._quantile_cells("gumbel", size, (loc, scale), lambda u, lo, sc: lo - sc * math.log(-math.log(u)))
+
+    def logistic(self, loc=0.0, scale=1.0, size=None):
+        return self._quantile_cells("logistic", size, (loc, scale), lambda u, lo, sc: lo + sc * math.log(u / (1.0 - u)))
+
     def _int_cell(self, low, high):
         n = int(high) - int(low)
         if n > self.tape.max_menu:
@@ -469,7 +498,8 @@ def _seedkey(seed):
 # unmodelled public sampling methods are counted, then served by a real, fixed-seed generator
 _MODELLED = {"standard_normal", "normal", "uniform", "random", "laplace", "choice", "permutation", "shuffle", "integers",
              "randint", "random_sample", "ranf", "sample", "rand", "randn", "seed", "get_state", "set_state",
-             "multivariate_normal", "permuted", "bit_generator", "spawn", "bytes"}
+             "multivariate_normal", "permuted", "bit_generator", "spawn", "bytes",
+             "exponential", "standard_exponential", "gumbel", "logistic"}
 
 
 def _wrap_unmodelled(cls, base):
